@@ -1,6 +1,8 @@
 /-
 C20 — binary benchmarks and the `bin2float` decoding decorator (`deap/benchmarks/binary.py:19-142`).
-Exact (`Nat`/`Int`/`Rat`).  Individuals are bit lists (`true` = 1).  Import-free.
+Exact (`Nat`/`Int`/`Rat`).  Individuals are bit lists: the model type is `List Bool` (`true` = 1), which stands
+for Python lists (or integer arrays) of the ints 0/1 — the only representation the source handles
+(`int("".join(map(str, …)), 2)` rejects `True`/`1.0`).  Import-free.
 -/
 namespace BenchBin
 
